@@ -11,7 +11,7 @@ BASE = dict(Keys={1, 2}, Sources={0, 1}, FixD6=True, MinOpsToEmit=1)
 
 def cfgc(**kw):
     c = dict(BASE, Nodes={1, 2}, CNodes={1, 2}, F=3, Times={0, 1, 2}, MaxOps=2, MaxDup=0, MaxExch=4, WithBatch=False, WithBulk=False,
-             WithRestart=False, WithPurge=False, MaxSkew=2)
+             WithRestart=False, WithPurge=False, WithTracker=False, MaxSkew=2)
     c.update(kw)
     return c
 
@@ -25,7 +25,9 @@ EXHAUSTIVE = {
                      ("E2", cfgc(WithBatch=True, MaxExch=2)),                         # batches, removals-first halves
                      ("E4", cfgc(WithBulk=True, WithRestart=True, MaxExch=2)),       # bulk operations, restarts
                      ("E5", cfgc(Nodes={1, 2, 3}, CNodes={1, 2, 3}, F=2, Times={0, 1}, MaxSkew=1, MaxExch=3)),  # three nodes
-                     ("E6", cfgc(MaxDup=1, MaxExch=3))],                              # duplicated deliveries
+                     ("E6", cfgc(MaxDup=1, MaxExch=3)),                               # duplicated deliveries
+                     ("E7", cfgc(WithTracker=True, MaxExch=6)),                       # the poller's keyspace tracker skips unchanged peers
+                     ("E8", cfgc(WithTracker=True, WithRestart=True, MaxExch=4))],
     },
     "C08": {
         "quick": [("P1", cfgc(F=2, Times={0, 1, 2, 3}, MaxSkew=1, MaxExch=2, WithPurge=True))],
@@ -36,8 +38,10 @@ EXHAUSTIVE = {
 # simulated configs (M by simulation + G: behaviours replayed on the real components)
 SIMULATED = {
     "C01": {
-        "quick": [("S1", cfgc(MaxOps=3, MaxDup=1, MaxExch=6, WithBatch=True, WithBulk=True, MinOpsToEmit=2), 2500, 80, 3000)],
-        "thorough": [("S1", cfgc(MaxOps=3, MaxDup=1, MaxExch=6, WithBatch=True, WithBulk=True, MinOpsToEmit=2), 30000, 80, 25000),
+        "quick": [("S1", cfgc(MaxOps=3, MaxDup=1, MaxExch=6, WithBatch=True, WithBulk=True, MinOpsToEmit=2), 2500, 80, 3000),
+                  ("S3b", cfgc(Nodes={1, 2, 3}, CNodes={1, 2, 3}, MaxOps=2, MaxExch=12, WithBulk=True, MinOpsToEmit=2), 1500, 120, 1500)],
+        "thorough": [("S3b", cfgc(Nodes={1, 2, 3}, CNodes={1, 2, 3}, MaxOps=3, MaxExch=14, WithBulk=True, WithBatch=True, MinOpsToEmit=2), 20000, 160, 8000),
+                     ("S1", cfgc(MaxOps=3, MaxDup=1, MaxExch=6, WithBatch=True, WithBulk=True, MinOpsToEmit=2), 30000, 80, 25000),
                      ("S2", cfgc(MaxOps=4, MaxDup=1, MaxExch=8, WithBatch=True, WithBulk=True, WithRestart=True, MinOpsToEmit=3), 20000, 120, 6000),
                      ("S3", cfgc(Nodes={1, 2, 3}, CNodes={1, 2, 3}, MaxOps=3, MaxExch=12, WithBatch=True, MinOpsToEmit=2), 20000, 140, 6000)],
     },
@@ -48,7 +52,7 @@ SIMULATED = {
                                   WithPurge=True, MinOpsToEmit=3), 15000, 160, 6000)],
     },
 }
-INVARIANTS = ["C01_Converges", "C02_Agree"]
+INVARIANTS = ["C01_Converges", "C02_Agree", "C05_NothingLeft", "C01_TrackerFixpoint"]
 
 
 def _exhaustive(ctx, name, c, workers):
